@@ -24,6 +24,9 @@
 #include <atomic>
 #include <thread>
 
+#include <sanitizer/common_interface_defs.h>
+#include <unistd.h>
+
 namespace dd = dispenso::detail;
 
 // ------------------------------------------------------------------------------------------------
@@ -64,7 +67,37 @@ constexpr uint64_t kL = dispenso::kCacheLineSize;
 
 struct Fail {
   std::string msg, replay;
+  uint64_t key; // the input value, for simplest-first ordering of the merged failures
 };
+
+// A sanitizer report kills the process (-fno-sanitize-recover).  The input being checked is remembered per thread
+// and a death callback turns the death into a recorded violation + replay artefact + SEQRESULT line.
+static thread_local const char* g_cur_kind = "?";
+static thread_local uint64_t g_cur_a = 0, g_cur_b = 0;
+static thread_local int g_cur_c = 0, g_cur_d = 0;
+static seq::Report* g_rep = nullptr;
+static bool g_replay_mode = false;
+static std::string cur_text() {
+  if (!strcmp(g_cur_kind, "alloc"))
+    return seq::fmt("alloc %llu %llu %d %d", (unsigned long long)g_cur_a, (unsigned long long)g_cur_b, g_cur_c, g_cur_d);
+  return seq::fmt("%s %llx", g_cur_kind, (unsigned long long)g_cur_a);
+}
+static void on_death() {
+  std::string t = cur_text();
+  if (g_replay_mode) {
+    printf("replay %s: the process is being killed by a sanitizer report (see stderr)\nreplay result: still failing\n", t.c_str());
+    fflush(stdout);
+    _exit(1);
+  }
+  if (!g_rep) return;
+  seq::Report* r = g_rep;
+  g_rep = nullptr;
+  r->violation("sanitizer report (undefined behaviour or memory error, see stderr) while checking input: " + t, t);
+  r->exhaustive = false;
+  r->domain = "ABORTED by a sanitizer report; counts are those merged before the abort";
+  r->finish();
+  _exit(1);
+}
 
 struct Local { // per-thread accumulation, merged in partition order
   uint64_t evals = 0, nontrivial = 0;
@@ -74,7 +107,7 @@ struct Local { // per-thread accumulation, merged in partition order
     fails.push_back({seq::fmt("%s(0x%llx) returned %llu (0x%llx), reference says %llu (0x%llx)", fn,
                               (unsigned long long)v, (unsigned long long)got, (unsigned long long)got,
                               (unsigned long long)want, (unsigned long long)want),
-                     seq::fmt("%s %llx", kind, (unsigned long long)v)});
+                     seq::fmt("%s %llx", kind, (unsigned long long)v), v});
   }
 };
 
@@ -87,6 +120,8 @@ static uint8_t g_pop16[65536]; // popcount of every 16-bit value, filled in main
 static inline void check32(uint32_t v, bool thorough, bool st, Local& L) {
   const bool deep = thorough || st;
   const uint64_t w = v;
+  g_cur_kind = "u32";
+  g_cur_a = v;
   const bool nt = (v & (v - 1)) != 0; // non-trivial: neither 0 nor a power of two
   uint64_t n = 0;
   if (v != 0) {
@@ -165,6 +200,8 @@ static inline void check32(uint32_t v, bool thorough, bool st, Local& L) {
 // the reference scans start there instead of at 0/63.
 static inline void check64(uint64_t x, bool deep, Local& L, int lowhint = 0, int tophint = 63) {
   const bool nt = (x & (x - 1)) != 0;
+  g_cur_kind = "u64";
+  g_cur_a = x;
   uint64_t n = 0;
   if (x != 0) {
     uint32_t want = ref_log2_desc(x, tophint);
@@ -223,6 +260,11 @@ static inline void check64(uint64_t x, bool deep, Local& L, int lowhint = 0, int
 // allocation of phase*24+1 bytes is live during the call) so that malloc's own return address varies.
 // which: 0 detail two-arg, 1 public two-arg, 2 detail one-arg (cache line), 3 public one-arg
 static std::string check_alloc(size_t alignment, size_t bytes, int phase, int which, uint64_t* offset_seen) {
+  g_cur_kind = "alloc";
+  g_cur_a = alignment;
+  g_cur_b = bytes;
+  g_cur_c = phase;
+  g_cur_d = which;
   void* pad = phase ? ::malloc((size_t)phase * 24 + 1) : nullptr;
   void* p = nullptr;
   size_t want_align = alignment;
@@ -274,11 +316,15 @@ static void run_parallel(unsigned nthreads, std::vector<Local>& locals, F&& body
 }
 
 static void merge(seq::Report& rep, std::vector<Local>& locals, uint64_t& nontrivial) {
+  std::vector<Fail> all;
   for (auto& l : locals) {
     rep.evaluations += l.evals;
     nontrivial += l.nontrivial;
-    for (auto& f : l.fails) rep.violation(f.msg, f.replay);
+    for (auto& f : l.fails) all.push_back(f);
   }
+  // every thread reports its first failures in ascending input order; order the union by input value (deterministic)
+  std::stable_sort(all.begin(), all.end(), [](const Fail& a, const Fail& b) { return a.key < b.key; });
+  for (auto& f : all) rep.violation(f.msg, f.replay);
 }
 
 static int do_replay(const char* path) {
@@ -308,7 +354,7 @@ static int do_replay(const char* path) {
       printf("replay u64 0x%llx: %zu failing checks\n", a, L.fails.size());
     } else if (!strcmp(kind, "alloc") && sscanf(line, "%*s %llu %llu %d %d", &a, &b, &c, &d) == 4) {
       std::string e = check_alloc((size_t)a, (size_t)b, c, d, nullptr);
-      if (!e.empty()) L.fails.push_back({e, ""});
+      if (!e.empty()) L.fails.push_back({e, "", 0});
       printf("replay alloc alignment=%llu bytes=%llu phase=%d variant=%d: %s\n", a, b, c, d, e.empty() ? "ok" : e.c_str());
     } else
       continue;
@@ -330,9 +376,14 @@ int main(int argc, char** argv) {
       replay = argv[++i];
   }
   for (uint32_t i = 0; i < 65536; i++) g_pop16[i] = (uint8_t)ref_pop(i, 16);
-  if (replay) return do_replay(replay);
+  __sanitizer_set_death_callback(on_death);
+  if (replay) {
+    g_replay_mode = true;
+    return do_replay(replay);
+  }
 
   seq::Report rep;
+  g_rep = &rep;
   rep.name = "c44_bitmath";
   rep.rule =
       "a case is one (function, input) pair, each enumerated once; non-trivial = the input is neither 0 nor a power "
@@ -450,6 +501,8 @@ int main(int argc, char** argv) {
           if ((g = dd::log2const(x)) != want) L.fail("detail::log2const(uint64_t)", "u64", x, g, want);
           L.evals++;
           if (v & (v - 1)) L.nontrivial++;
+          g_cur_kind = "u64";
+          g_cur_a = x;
         }
         if (L.fails.size() >= 5) break;
       }
